@@ -50,7 +50,8 @@ pub struct JsonFormat {
     pub pretty: bool,
     /// Order of the observations in the response (a matter of format, not of content):
     /// 0 ascending by date (what Valet does by default), 1 descending, 2 a few observations
-    /// listed late (after newer ones), 3 a few observations listed twice (identical copies).
+    /// listed late (after newer ones), 3 a few observations listed twice (identical copies),
+    /// 4 ascending, plus the observations of up to 6 days before and after the requested range.
     #[serde(default)]
     pub obs_order: u8,
     #[serde(default)]
@@ -132,7 +133,10 @@ impl BocData {
     /// Render the Valet JSON for [start, end] of `series` as seen on (today, published_today).
     pub fn render(&self, series: &str, start: Date, end: Date, today: Date, published_today: bool) -> String {
         let mut obs: Vec<String> = vec![];
-        for (d, v) in self.published.range(start..=end) {
+        // obs_order 4: the server also lists a few observations just outside the requested range
+        // (of the neighbouring years; same series only) - they say nothing about the requested year.
+        let (lo, hi) = if self.format.obs_order == 4 { (start - Duration::days(6), end + Duration::days(6)) } else { (start, end) };
+        for (d, v) in self.published.range(lo..=hi) {
             if !self.in_snapshot(*d, today, published_today) {
                 continue;
             }
